@@ -26,7 +26,7 @@ import (
 	"github.com/tigerwill90/fox"
 )
 
-const rule = "cases = requests of 12 shapes (direct, two parameters, catch-all, hostname, ignored trailing slash, redirect, 404, 405, auto OPTIONS, manual Lookup with own writer, Lookup with nil writer, CloneWith) " +
+const rule = "cases = requests of 20 shapes (direct, two parameters, catch-all, hostname, ignored trailing slash, redirect, 404, 405, auto OPTIONS, manual Lookup with own writer, Lookup with nil writer, CloneWith) " +
 	"each with a unique token in every observable field, in random order; every handler/middleware invocation compares all Context getters with its own request; clones re-read later; " +
 	"distinct by token; non-trivial when the previous user of the pooled context was a request of a different shape (sequential mode) or always (concurrent mode)"
 
@@ -230,10 +230,15 @@ func newWorldWith(run *kit.Run, forward bool) *world {
 	f.MustHandle("GET", "/is/static/", h, fox.WithIgnoreTrailingSlash(true))
 	f.MustHandle("GET", "/x/*{tok}/end", h)
 	f.MustHandle("GET", "/y/*{a}/mid/*{tok}/end/", h, fox.WithIgnoreTrailingSlash(true))
+	f.MustHandle("GET", "/z/*{a}/m/{tok}/{b}", h)
+	// hostname routes of other methods whose probing (405 / automatic OPTIONS) has to backtrack between hostname labels
+	f.MustHandle("POST", "{a}.b.com/hp/{tok}", h)
+	f.MustHandle("POST", "{a}.{b}.com/hq/{tok}", h)
+	f.MustHandle("PUT", "{a}.b.com/hq/x/{tok}", h)
 	return w
 }
 
-var shapes = []string{"ignored-tsr-static", "infix", "infix2-tsr", "direct", "two", "catchall", "host", "ignored-tsr", "redirect", "404", "405", "options", "options-star", "lookup", "lookup-nil", "clonewith", "static-then-param"}
+var shapes = []string{"ignored-tsr-static", "infix", "infix2-tsr", "direct", "two", "catchall", "host", "ignored-tsr", "redirect", "404", "405", "options", "options-star", "lookup", "lookup-nil", "clonewith", "static-then-param", "infix-then-params", "405-hostparam", "options-hostparam"}
 
 type respW struct {
 	h      http.Header
@@ -318,6 +323,12 @@ func (w *world) issue(n int64, shape string) *expect {
 		path, e.pattern = "/is/static", "/is/static/"
 	case "infix":
 		path, e.pattern, e.params = "/x/q/"+tok+"/r/end", "/x/*{tok}/end", []fox.Param{P("tok", "q/"+tok+"/r")}
+	case "infix-then-params":
+		path, e.pattern, e.params = "/z/q/"+tok+"/m/"+tok+"/b"+tok, "/z/*{a}/m/{tok}/{b}", []fox.Param{P("a", "q/"+tok), P("tok", tok), P("b", "b"+tok)}
+	case "405-hostparam":
+		host, path, e.kind, e.scope = "s"+tok+".b.com", "/hq/"+tok, "nomethod", fox.NoMethodHandler
+	case "options-hostparam":
+		method, host, path, e.kind, e.scope = "OPTIONS", "s"+tok+".b.com", "/hq/"+tok, "options", fox.OptionsHandler
 	case "infix2-tsr":
 		path, e.pattern, e.params = "/y/a"+tok+"/b/mid/"+tok+"/end", "/y/*{a}/mid/*{tok}/end/", []fox.Param{P("a", "a"+tok+"/b"), P("tok", tok)}
 	}
